@@ -901,7 +901,17 @@ pub fn h2_expressible(rq: &Req) -> bool {
         .ok()
         .map(|t| format!("http://localhost{}", t).parse::<http::Uri>().is_ok())
         .unwrap_or(false);
-    let ok_ct = rq.ct.as_ref().map(|c| http::HeaderValue::from_bytes(c).is_ok()).unwrap_or(true);
+    // RFC 9113 section 8.2.1: a field value must not start or end with whitespace (an HTTP/1.1
+    // parser strips it; an HTTP/2 peer must not send it)
+    let ok_ct = rq
+        .ct
+        .as_ref()
+        .map(|c| {
+            http::HeaderValue::from_bytes(c).is_ok()
+                && !matches!(c.first(), Some(b' ') | Some(b'\t'))
+                && !matches!(c.last(), Some(b' ') | Some(b'\t'))
+        })
+        .unwrap_or(true);
     let plain_chunks = match &rq.framing {
         Framing::Ch { exts, last_ext, trailers, .. } => exts.iter().all(|e| e.is_empty()) && last_ext.is_empty() && trailers.is_empty(),
         _ => true,
